@@ -10,3 +10,10 @@ LIB = filemodel.install_repo_models({})
 ASSUMPTIONS = ["pytables Table.read_coordinates(coords, field=name) returns that column at the given rows in the order of coords; "
                "with field=None it returns structured records"]
 NOT_DECIDED = ["n_linear_samples > 1 together with return_logprobs: the real code raises on a column-length mismatch (returns nothing)"]
+
+
+def EXTRA():
+    # return_logprobs / return_all_logprobs reach the function that attaches the values
+    from jvc import effects
+    return [r for r in effects.check_option_forwarding(["thejoker.thejoker.TheJoker.rejection_sample", "thejoker.thejoker.TheJoker.iterative_rejection_sample"],
+                                                       PROPERTY) if "logprobs" in r["name"]]
